@@ -2,6 +2,42 @@ package h2
 
 // shared harness helpers for package h2 (injected through //vf:extra)
 
+import (
+	"io"
+	"sync"
+
+	"golang.org/x/net/http2"
+)
+
+// vfProxyLoop is Config.Proxy from the point where both connections exist (everything after its TLS dial and the
+// preface): two framers, two relays wired to each other through relayAdapter processors, and the two relayFrames
+// goroutines; it returns when both have returned.
+func vfProxyLoop(cc, sc io.ReadWriter) {
+	off := false
+	closing := make(chan bool)
+	cf, sf := http2.NewFramer(cc, cc), http2.NewFramer(sc, sc)
+	cToS := newRelay(ClientToServer, "client", "server", cf, sf, &off)
+	sToC := newRelay(ServerToClient, "server", "client", sf, cf, &off)
+	cToS.peer, sToC.peer = sToC, cToS
+	cToS.processors = &streamProcessors{
+		create: func(id uint32) *Processors {
+			return &Processors{cToS: &relayAdapter{id, cToS}, sToC: &relayAdapter{id, sToC}}
+		},
+	}
+	sToC.processors = cToS.processors
+	var wg sync.WaitGroup
+	wg.Add(2)
+	go func() {
+		defer wg.Done()
+		cToS.relayFrames(closing)
+	}()
+	go func() {
+		defer wg.Done()
+		sToC.relayFrames(closing)
+	}()
+	wg.Wait()
+}
+
 const vfBig = 1 << 31
 
 // vfFrame builds the wire bytes of one HTTP/2 frame.
